@@ -22,6 +22,11 @@ pub struct TcpStream {
 }
 impl AsyncRead for TcpStream {
     fn poll_read(mut self: Pin<&mut Self>, cx: &mut Context<'_>, buf: &mut ReadBuf<'_>) -> Poll<io::Result<()>> {
+        if self.faulty && cancelled() {
+            crate::probe("tokio_server_io_after_shutdown_returned");
+            LATE_IO.with(|l| l.set(l.get() + 1));
+            return Poll::Ready(Err(io::Error::from(io::ErrorKind::ConnectionAborted)));
+        }
         if self.faulty && crate::fault(Fault::SpuriousPending) {
             cx.waker().wake_by_ref();
             return Poll::Pending;
@@ -41,6 +46,11 @@ impl AsyncRead for TcpStream {
 }
 impl AsyncWrite for TcpStream {
     fn poll_write(mut self: Pin<&mut Self>, cx: &mut Context<'_>, data: &[u8]) -> Poll<io::Result<usize>> {
+        if self.faulty && cancelled() {
+            crate::probe("tokio_server_io_after_shutdown_returned");
+            LATE_IO.with(|l| l.set(l.get() + 1));
+            return Poll::Ready(Err(io::Error::from(io::ErrorKind::ConnectionAborted)));
+        }
         if self.faulty && crate::fault(Fault::SpuriousPending) {
             cx.waker().wake_by_ref();
             return Poll::Pending;
@@ -76,13 +86,33 @@ struct Net {
     log: UdpLog,
     max_udp_delay_ns: u64,
 }
-thread_local! { static NET: RefCell<Net> = RefCell::new(Net::default()); }
+thread_local! {
+    static NET: RefCell<Net> = RefCell::new(Net::default());
+    /// Set by the harness once `TokioShutdownController::shut_down` has returned: the daemon
+    /// drops the runtime at that point, which cancels every task still alive. Server-side
+    /// sockets emulate the cancellation: any later use fails (and closes the connection), so a
+    /// task that outlived the "graceful" shutdown shows up as a torn or missing response.
+    static RUNTIME_DROPPED: std::cell::Cell<bool> = const { std::cell::Cell::new(false) };
+    static LATE_IO: std::cell::Cell<u64> = const { std::cell::Cell::new(0) };
+}
+/// Server-side socket operations attempted after `set_runtime_dropped` in this execution.
+pub fn late_io() -> u64 {
+    LATE_IO.with(|l| l.get())
+}
+pub fn set_runtime_dropped() {
+    RUNTIME_DROPPED.with(|r| r.set(true));
+}
+fn cancelled() -> bool {
+    RUNTIME_DROPPED.with(|r| r.get())
+}
 pub(crate) fn reset() {
     NET.with(|n| {
         let old = std::mem::take(&mut *n.borrow_mut());
         std::mem::forget(old);
         n.borrow_mut().max_udp_delay_ns = 200_000_000;
     });
+    RUNTIME_DROPPED.with(|r| r.set(false));
+    LATE_IO.with(|l| l.set(0));
 }
 pub fn take_udp_log() -> UdpLog {
     NET.with(|n| std::mem::take(&mut n.borrow_mut().log))
@@ -157,6 +187,11 @@ impl AsyncUdpSocket {
         }
     }
     pub fn poll_send(&mut self, cx: &mut Context<'_>, buf: &[u8], dest: SocketAddr, src: IpAddr) -> Poll<io::Result<usize>> {
+        if self.faulty && cancelled() {
+            crate::probe("tokio_server_io_after_shutdown_returned");
+            LATE_IO.with(|l| l.set(l.get() + 1));
+            return Poll::Ready(Err(io::Error::from(io::ErrorKind::ConnectionAborted)));
+        }
         if self.faulty && crate::fault(Fault::SpuriousPending) {
             cx.waker().wake_by_ref();
             return Poll::Pending;
